@@ -57,6 +57,10 @@ INDUCTIVE = [
     'inductive-lemma(backward): forall N$i (N$i >= -3 -> (p(N$i) -> N$i > 0)).',
     'inductive-lemma: N$i >= 2 -> (p(N$i) -> q(N$i + 0)).',
     'inductive-lemma: forall N$i Y (N$i >= 0 -> (Y = N$i + N$i -> exists M$i (Y = M$i))).',
+    # a general variable with the name of the induction variable, listed first / left free
+    'inductive-lemma: forall N N$i (N$i >= 0 -> (q(N) and N = N$i -> N$i >= 0 and q(N$i))).',
+    'inductive-lemma(forward): forall N$i (N$i >= 1 -> (p(N) -> N != N$i or q(N$i))).',
+    'inductive-lemma: forall N$i N (N$i >= 0 -> (s(N, N$i) -> s(N$i, N))).',
     'inductive-lemma: forall N$i (N$i >= 0 -> q(N$i)).',
     'inductive-lemma(forward): forall N$i (N$i >= 5 -> not q(N$i)).',
 ]
